@@ -641,7 +641,8 @@ impl Engine for C12 {
                             // 1000 shares at 10.00 USD: the Amount cell is $<10000 x rate> to the cent
                             let amount = (Decimal::from(if row.sell { 10 } else { 10000 }) * *tr).round_dp_with_strategy(2, rust_decimal::RoundingStrategy::MidpointAwayFromZero);
                             let cell = format!("${:.2}", amount);
-                            if !out_txt.contains(&cell) {
+                            // (robust against a thousands separator in the rendering)
+                            if !out_txt.contains(&cell) && !out_txt.replace(',', "").contains(&cell) {
                                 push(Violation { kind: "console_wrong_amount".into(), signature: "Amount cell of a USD row not computed with the expected rate".into(), detail: format!("today {} published_today {} rows:\n{}row {}: expected an Amount cell {} (10000.00 USD x {}), not found on stdout", today, pt, app_csv(rows), i, cell, tr) }, &mut violations);
                             }
                         }
